@@ -6,7 +6,7 @@ from rules.psc import sym, strip, facts_at, implies_lt, macro_of
 
 META = {
     'title': 'Every failure is an error value: no input crashes or hangs the interpreter',
-    'explanation': 'PSC: every panic source (MIR Assert terminators for overflow / division / bounds, calls to unwrap/expect, core::panicking::*, Index::index and the panicking Vec/String/str methods) in every function reachable from the public entry points and the binary is collected and must be discharged by a checked local argument: a constant condition (D0), a dominating guard over the same places (D1), the same guard found on every enumerated path reaching the site (D1p, loops cut at two visits; helpers that are new with respect to the pinned tree are spliced into their callers first), a sign/size/field-range/countdown argument (D2), or a structural invariant established by another rule of this suite (D3, one named row per symbol). TRM: every loop of lexer/parser/compiler passes a strict consumer, a loop counter step or a shrinking-container step on every iteration and every recursion cycle consumes input. R05.3/R05.4: error values are propagated, the CLI does not unwrap them.',
+    'explanation': 'PSC: every panic source (MIR Assert terminators for overflow / division / bounds, calls to unwrap/expect, core::panicking::*, Index::index and the panicking Vec/String/str methods) in every function reachable from the public entry points and the binary is collected and must be discharged by a checked local argument: a constant condition (D0), a dominating guard over the same places (D1), the same guard found on every enumerated path reaching the site (D1p, loops cut at two visits; helpers that are new with respect to the pinned tree are spliced into their callers first), a sign/size/field-range/countdown argument (D2), or a structural invariant established by another rule of this suite (D3, one named row per symbol). TRM: every loop of lexer/parser/compiler passes a strict consumer, a loop counter step or a shrinking-container step on every iteration and every recursion cycle consumes input. R05.3/R05.4: error values are propagated, the CLI does not unwrap them. R05.5 the number of call frames is bounded by a test with an error edge.',
     'not_decided': ['termination of the VM loop for programs that loop by themselves (halting problem)', 'time/memory limits, host stack size'],
 }
 
